@@ -56,6 +56,7 @@ type Case struct {
 	Shape   string   `json:"shape"` // get | form | multipart | chunked
 	State   string   `json:"state"` // mid | abort | stream | hijack | reqstream | fresh (informational but for reqstream/fresh)
 	Predump bool     `json:"predump"`
+	Rich    bool     `json:"rich"` // the handler fills keys, errors and the response before the pre mutators
 	Pre     []string `json:"pre"`
 	Steps   []Step   `json:"steps"`
 	Ending  string   `json:"ending"` // return | abort | panic
